@@ -138,16 +138,20 @@ CLAIMS.update({
          "one inserter / remover and one lookup of any key, with NO hypothesis on the bucket: the lookup answers as alone "
          "before or alone after, and both results plus the final filesystem equal one of the two serial runs "
          "(lookup_linearizable_insert/delete, insert_find_serial); a lookup among any processes answers from a snapshot "
-         "of whole records that is a prefix of the bucket's history (lookup_snapshot). Tie: 6-12 real processes (sync+async API, both runtimes) hammering one cache with read/record/content "
+         "of whole records that is a prefix of the bucket's history (lookup_snapshot). LISTERS (Lemmas/LinearizeLs): any number of "
+         "index operations next to ONE lister on a warm index are serializable under every schedule - a serial run of the real "
+         "programs gives the same answers (a listing up to the order of its items), lookups and listing afterwards "
+         "(ls_among_writers_serializable), with the pair and three-operation shapes of the quantifier as corollaries "
+         "(ls_linearizable_insert/delete, ls_insert_serial, ls_two_writers_serializable). Tie: 6-12 real processes (sync+async API, both runtimes) hammering one cache with read/record/content "
          "monitors; strace check that an index insert is ONE write(2) on an O_APPEND descriptor (also multi-MiB); OBSERVER SWEEP: "
          "a writer / remover stopped on entry to each of its mutating system calls, every observer (lookup, read, list, "
          "exists, read_hash; sync+async) must answer as before or as after the operation.",
     note=TB + "the interleaving semantics takes one filesystem call as the atomic step and has no faults inside an "
          "interleaving (crashes/faults of a single writer: C03/C13); kernel atomicity of write(O_APPEND) and rename is "
          "assumed; temp names are modelled as a monotone counter (tempfile's random names: fresh by retry-on-EEXIST). "
-         "Linearizability of RESULTS is proved for the index operations (insert / delete / find: one global order); listings "
-         "and the two-step `read` (index, then content) are covered by the per-bucket whole-record snapshot and the content "
-         "validity theorems only - four processes (two listers, two inserters into different buckets) can produce listings "
+         "Linearizability of RESULTS is proved for the index operations (insert / delete / find: one global order) and for ONE "
+         "lister next to them on a warm index (the cold-cache lister is known finding F23); the two-step `read` (index, then "
+         "content) is covered by the per-bucket whole-record snapshot and the content validity theorems only - four processes (two listers, two inserters into different buckets) can produce listings "
          "that fit no serial order, which is outside C07's quantifier (2-3 operations).",
     technique="Lean 4 proof (invariants over all interleavings) + multi-process stress + syscall skeleton"),
  "C08": dict(
@@ -180,7 +184,11 @@ CLAIMS.update({
          "(Lemmas/FaultStrict): an operation every one of whose calls turns an error answer into a non-ok result is `Strict`, "
          "and for a strict operation an ok result under ANY fault plan means no fault fired - result, filesystem and trace "
          "are the healthy run's (fault_ok_is_healthy); clear is strict, so clear answering ok leaves a healthy, tidy, EMPTY "
-         "cache (clear_ok_truthful - the negation was defect F26 in the real code); remove_hash and index insertion with an "
+         "cache (clear_ok_truthful - the negation was defect F26 in the real code), for EVERY order of the directory's children "
+         "(clear_any_order_fault); THE REMAINING OPERATIONS under every fault plan (Lemmas/FaultMore): checked extraction by "
+         "address / key (error => filesystem unchanged, ok => the destination holds bytes that passed the check, nothing else "
+         "changes), listing (read-only, a sublist of the healthy listing, every item genuine), full removal (ok => no later "
+         "lookup finds the key; error => every key as before); remove_hash and index insertion with an "
          "explicit time are strict; with the clock's time exactly one error is tolerated, a failing clock read, which equals "
          "a clock reading 0 (delete_ok_clock); lookups and the writers are proved NOT strict (a missing bucket reads as empty; "
          "a failed rename over existing content is fine) - for those fault_success_is_truthful says what ok means. Tie: strace errno injection into every syscall class of "
@@ -272,7 +280,10 @@ CLAIMS.update({
          "leads to the very file being linked (relink_same_file_kept: nothing is written, tmp untouched) and otherwise - "
          "stale, dangling, leading elsewhere - replaced by a link to the target just read (temp link + rename, nothing left "
          "in tmp, nothing else changed); in both cases read_hash of the returned address and read of the key answer exactly "
-         "the target's bytes (F18). "
+         "the target's bytes (F18). WITH DECLARED OPTIONS (Props/C19x, Lemmas/LinkDecl, each of the four situations at the address): "
+         "a wrong declared size / integrity is rejected with exactly the writer's error and no lookup changes; matching "
+         "declarations commit, record the target's true size and read back; the commit answers ok IFF the link phase is ok and "
+         "both declarations are absent or hold (link_commit_decision, lcommit_ok_iff). "
          "Correspondence: absolute/relative targets, partial reads before commit, wrong declarations, pre-existing "
          "content, an address already linked from another file that was since removed / rewritten / kept, target "
          "modified/removed afterwards.",
